@@ -21,8 +21,11 @@ def run_property(prop: str, tier: str, program: Program, seed: int, quiet: bool 
     ctx = Ctx(program, prop, tier)
     mod.check(ctx)
     ctx.finish()
-    if tier == "thorough" and hasattr(mod, "thorough"):
-        mod.thorough(ctx)
+    if tier == "thorough":
+        from . import selfcheck
+        selfcheck.run(ctx)
+        if hasattr(mod, "thorough"):
+            mod.thorough(ctx)
     return emit(ctx, time.time() - t0, seed, quiet=quiet)
 
 
